@@ -64,6 +64,15 @@ type Case struct {
 // identifiers that start with an IDL basic-type keyword
 var keywordPrefixed = []string{"int8x", "strategy", "anything", "objective", "boolean", "unknownT", "int32_t", "uint64s", "float32x", "stringy", "anyone", "object"}
 
+// words of the IDL's own vocabulary which are not type names (keywords of
+// declarations, the spelling of void in the other direction, words of other
+// interface languages): legal identifiers, so legal names of structs, fields,
+// actions and parameters. The names of the basic types themselves (int32, str,
+// any, obj, unknown ...) are reserved words of the IDL's type position and are
+// not used as struct names (a struct called str cannot be told from str).
+var idlWords = []string{"nothing", "fn", "sig", "prop", "interface", "end", "enum", "struct", "package", "void", "uid", "in", "out",
+	"const", "Object", "Value", "none", "null", "vec", "tuple", "list", "double", "float", "int", "integer", "long", "char", "byte", "boolean", "String", "Nothing"}
+
 var reservedTemplateBases = map[string]bool{"Map": true, "Vec": true, "Tuple": true}
 
 type namer struct {
@@ -105,6 +114,8 @@ func (n *namer) fresh(t *rapid.T, label string, allowKeywordPrefix bool) string 
 		var s string
 		if allowKeywordPrefix && rapid.IntRange(0, 7).Draw(t, label+"_kw") == 0 {
 			s = rapid.SampledFrom(keywordPrefixed).Draw(t, label+"_kwname")
+		} else if rapid.IntRange(0, 9).Draw(t, label+"_word") == 0 {
+			s = rapid.SampledFrom(idlWords).Draw(t, label+"_idlword")
 		} else {
 			s = gen.Ident().Draw(t, label)
 		}
@@ -147,6 +158,9 @@ func drawType(t *rapid.T, pool []*ref.Type, depth int) *ref.Type {
 		return ref.MapOf(key, drawType(t, pool, depth-1))
 	case "tuple":
 		n := rapid.IntRange(1, 3).Draw(t, "tn")
+		if rapid.IntRange(0, 11).Draw(t, "emptytuple") == 0 {
+			n = 0 // () is a type of the grammar wherever a type may stand
+		}
 		ms := make([]*ref.Type, n)
 		for i := range ms {
 			ms[i] = drawType(t, pool, depth-1)
@@ -204,6 +218,30 @@ func genCase(t *rapid.T) Case {
 			members[j] = drawType(t, pool, 1)
 		}
 		pool = append(pool, ref.StructOf(name, fields, members))
+	}
+	// now and then a chain: each struct has a member of the previous one's type
+	// (bare, or inside a list or map), five to fourteen levels of named types
+	if rapid.IntRange(0, 15).Draw(t, "chain") == 0 {
+		depth := rapid.IntRange(5, 14).Draw(t, "chaindepth")
+		var prev *ref.Type
+		for i := 0; i < depth; i++ {
+			name := names.fresh(t, "chainstruct", false)
+			fields := []string{"v"}
+			members := []*ref.Type{ref.Scalar(rapid.SampledFrom(leaves).Draw(t, "chainleaf"))}
+			if prev != nil {
+				inner := prev
+				switch rapid.IntRange(0, 3).Draw(t, "chainwrap") {
+				case 0:
+					inner = ref.ListOf(prev)
+				case 1:
+					inner = ref.MapOf(ref.Scalar(ref.KString), prev)
+				}
+				fields = append(fields, "next")
+				members = append(members, inner)
+			}
+			prev = ref.StructOf(name, fields, members)
+		}
+		pool = append(pool, prev)
 	}
 	c := Case{Package: rapid.SampledFrom([]string{"pkg", "a.b-c", "_x", "unknown", "test1"}).Draw(t, "package")}
 	ni := rapid.IntRange(1, 3).Draw(t, "nitf")
@@ -490,6 +528,12 @@ func checkCase(c Case) error {
 		labels = append(labels, "maybe-template-name")
 	}
 	key, _ := json.Marshal(c)
+	if len(names) >= 8 {
+		labels = append(labels, "structs>=8(chain)")
+	}
+	if strings.Contains(string(key), "()") {
+		labels = append(labels, "contains-()")
+	}
 	vt.Case(nontrivial, string(key), labels...)
 	if nontrivial {
 		vt.Sample("idl", text)
